@@ -174,6 +174,10 @@ def classify(what):
     return what[:60]
 
 
+def POPULATING_EM(rng):
+    return {"op": "em", "p": {"rule": rng.choice(["l.d = r.d", "l.a = r.a", "l.c = r.c"]), "fix_u": False, "populate_prior": True}}
+
+
 def run(ctx: core.Ctx):
     ctx.rule = (
         "cases = for sampled (dataset+model, 0-2 operation prefix, operation) triples: EVERY backend-statement index of the operation as the injected failure point (exhaustive per "
@@ -201,6 +205,8 @@ def run(ctx: core.Ctx):
         if opname == "graph_metrics":
             prefix = prefix + [{"op": "predict", "p": {}}, {"op": "cluster", "p": {"t": 0.1}}]
         cont = H.gen_history(rng, world, length=rng.randint(1, 3), ops=["predict", "estimate_u", "em", "find_matches", "compare_two", "cluster", "deterministic_link"])
+        if opname == "em" and rng.random() < 0.6:
+            cont.append(POPULATING_EM(rng))  # a later session that reads ALL registered sessions (a failed one must not be among them)
         triples.append((world, prefix, step[0], cont))
     if ctx.replay:
         cases = [json.loads(open(ctx.replay).read())["replay"]["case"]]
@@ -221,6 +227,8 @@ def run(ctx: core.Ctx):
             world = H.gen_world(rng)
             for st in user_failure_steps(rng, world):
                 cont = H.gen_history(rng, world, length=2, ops=["predict", "em", "estimate_u"])
+                if st["op"] == "em":
+                    cont.append(POPULATING_EM(rng))
                 cases.append({"world": world, "prefix": [], "step": {"op": st["op"], "p": st["p"]}, "cont": cont, "k": None, "why": st["why"], "tag": "user"})
     res = core.pmap(run_fault_case_safe, cases, chunksize=2)
     concrete, broken = [], []
